@@ -2,6 +2,7 @@
   MicroHttp.SrvProto — line-protocol front end of the server model (driver side only).
 -/
 import MicroHttp.Server
+import MicroHttp.Kernel
 import MicroHttp.Show
 namespace MicroHttp
 
@@ -132,6 +133,25 @@ def srvStep (s : Srv) (args : List String) : Srv × String :=
         let (s', r, _) := respond s ⟨fd, inst⟩ (Response.build v c ops)
         (s', (match r with | .ok => "ok" | .underflow => "underflow") ++ " " ++ showInterest s')
     | _, _, _ => (s, "bad-op")
+  | "kern" :: entries =>
+    -- `<fd>:<unread bytes>:<peer gone 0/1>:<writable 0/1>`: the kernel model (Kernel.lean, E7) predicts which
+    -- connection descriptors epoll reports, from the model's interest map
+    let parsed := entries.mapM fun (t : String) =>
+      match t.splitOn ":" with
+      | [fd, n, g, w] =>
+        match fd.toNat?, n.toNat?, g.toNat?, w.toNat? with
+        | some fd, some n, some g, some w =>
+          some (fd, ({ unread := List.replicate n 0, peerGone := g != 0, space := w } : KSock))
+        | _, _, _, _ => none
+      | _ => none
+    match parsed with
+    | none => (s, "bad-op")
+    | some table =>
+      let ready := s.conns.filter fun c =>
+        match table.find? (·.1 = c.fd) with
+        | some x => connReady c x.2
+        | none => false
+      (s, showFdList "ready" (ready.map (·.fd)))
   | "flushb" :: budgets =>
     -- `<fd>:<budget>[x]`
     let parsed := budgets.mapM fun (t : String) =>
